@@ -206,6 +206,11 @@ def run_c15(R, tier, rng):
             idx = [rng.randrange(-n, n) for _ in range(rng.randint(1, 5))]
             C.cmp(f"list {tag} {idx}", "list", nt, lambda: dense_obs(mk()[idx]), lambda: dense_obs(A[idx]), py=f"rla[{idx}]  rla = from_array({a!r}, {dt})")
             C.cmp(f"array {tag} {idx}", "int-array", nt, lambda: dense_obs(mk()[np.array(idx)]), lambda: dense_obs(A[np.array(idx)]))
+            uidx = [i % n for i in idx] + [n - 1, 0]           # unsigned index arrays, not sorted (differences of unsigned numbers wrap)
+            for udt in ("uint8", "uint16", "uint32"):
+                if n <= np.iinfo(udt).max:
+                    C.cmp(f"array/{udt} {tag} {uidx}", "int-array/" + udt, nt, lambda: dense_obs(mk()[np.array(uidx, dtype=udt)]), lambda: dense_obs(A[np.array(uidx, dtype=udt)]),
+                          py=f"rla[np.array({uidx}, dtype=np.{udt})]  rla = from_array({a!r}, {dt})")
         for _ in range(3):
             m = [rng.random() < .5 for _ in range(n)]
             C.cmp(f"mask {tag} {m}", "bool-mask", nt, lambda: dense_obs(mk()[np.array(m)]), lambda: dense_obs(A[np.array(m)]), py=f"rla[np.array({m})]")
